@@ -121,7 +121,7 @@ fn parse(o: &RunObs) -> Parsed {
 }
 
 fn gen_name(r: &mut Rng) -> String {
-    let hostile = ["a", "b", "x y", "it's", "q\"d", "b\\s", "$HOME", "st*r", "wh?t", "[br]", "new\nline", "-dash", "ünï", ".hid", "a.b", "*", "c*d"];
+    let hostile = ["a", "b", "x y", "it's", "q\"d", "b\\s", "$HOME", "st*r", "wh?t", "[br]", "new\nline", "-dash", "ünï", ".hid", "a.b", "*", "c*d", "é", "日.b"];
     r.pick(&hostile).to_string()
 }
 
@@ -148,7 +148,7 @@ pub fn main(a: Args) -> i32 {
     let dstd = format!("{}/D r", absout); // a space in the destination root
     let pool: Vec<Vec<u8>> = vec![b"".to_vec(), b"x".to_vec(), b"hello".to_vec(), b"HELLO".to_vec(), vec![7u8; 1000], vec![9u8; 300_000]];
     let mtimes: [(i64, u32); 8] = [(0, 0), (1, 1), (1_000_000_000, 500_000_000), (1_000_000_000, 999_999_999), (2_147_483_647, 0), (2_147_483_648, 1), (4_294_967_297, 0), (1_700_000_000, 0)];
-    let pats = ["*", "*.b", "a", "x y", "st*r", "wh?t", "?", "a/*", "*/a", "it's", "[br]", ".*", "c?d", "new*", "-dash"];
+    let pats = ["*", "*.b", "a", "x y", "st*r", "wh?t", "?", "a/*", "*/a", "it's", "[br]", ".*", "c?d", "new*", "-dash", "?.b", "ün?", "??"];
     let mut nfail = 0u64;
     let mut distinct = std::collections::HashSet::new();
     let mut id = 0usize;
@@ -262,7 +262,8 @@ pub fn main(a: Args) -> i32 {
         }
         // ---- oracles on the implementation (independent of the model)
         let exs: Vec<String> = excludes.clone();
-        let is_ex = |p: &String| crate::cli::plan::is_excluded(std::path::Path::new(p), &exs);
+        // C15's wording of the wildcard semantics (an independent definition, NOT the implementation's matcher)
+        let is_ex = |p: &String| crate::c19::excluded_spec(p, &exs);
         if src_after != src_before {
             nfail += 1;
             out.line("specfail.txt", &format!("{} C04 the source tree was modified ({})", id, class));
